@@ -28,6 +28,9 @@ def run_rule(pid, idx, tier):
     return c, mod
 
 
+_BASE_IDX = None
+
+
 def fails_of(c):
     return {(o.rule, o.key) for o in c.obs if not o.ok}
 
@@ -49,7 +52,10 @@ def _variant_job(args):
     except SyntaxError as exc:
         return name, 'error', f'variant does not compile: {exc}'
     try:
-        idx = Index(repo, overlay={rel: new_src})
+        if _BASE_IDX is not None and rel.startswith('cylc/flow/'):
+            idx = Index.with_overlay(_BASE_IDX, {rel: new_src})
+        else:
+            idx = Index(repo, overlay={rel: new_src})
         c, _ = run_rule(pid, idx, 'quick')
     except AnalysisError as exc:
         # an anchor that vanished is reported, never silently passed
@@ -150,6 +156,8 @@ def main(argv=None):
                 return 1
             return 0
         if tier == 'thorough' or a.selftest:
+            global _BASE_IDX
+            _BASE_IDX = idx
             summary, problems = selftest(pid, repo, fails_of(c), mod)
             c.note('selftest: ' + json.dumps(summary)[:4000])
             if problems:
